@@ -584,6 +584,20 @@ func runC20(c *Ctx) *Replay {
 			}
 		}
 	}
+	// part 3e: what a read returned is the caller's: it does not change when the SOURCE is
+	// used again (a bytes.Buffer that is reset and refilled with the next frame)
+	for _, p := range []string{"bytes", "string", "guid", "bytes"} {
+		sc := Scenario{Kind: "prims", Types: []string{p}, Values: []val.Value{drawPrim(c.R, g, p, true)}, Cut: c.R.Intn(3), Extra: map[string]string{"probe": "sourcereuse"}}
+		viol := execPrimSourceReuse(c.N, &sc)
+		c.Count("evaluations", 1)
+		c.Count("source_reused_after_read", 1)
+		c.State("c20s", p, fmt.Sprint(sc.Cut))
+		if viol != nil {
+			if rp := c.shrinkAndReport(&sc, viol); rp != nil {
+				return rp
+			}
+		}
+	}
 	// part 4: hostile length prefixes on the checked string readers (never out of bounds)
 	for _, pfx := range []uint32{uint32(len(sv.B)) + 1, 1 << 16, 1<<31 - 1, 1 << 31, 0xFFFFFFF0, 0xFFFFFFFB, 0xFFFFFFFC, 0xFFFFFFFD, 0xFFFFFFFE, 0xFFFFFFFF} {
 		for _, shared := range []bool{false, true} {
@@ -692,6 +706,43 @@ func execPrimOverlap(n *Node, sc *Scenario) *Violation {
 	return nil
 }
 
+// execPrimSourceReuse reads one value from a *bytes.Buffer (Cut 0: directly, 1: under an
+// io.LimitedReader, 2: under two), then resets the buffer and fills it with other bytes.
+func execPrimSourceReuse(n *Node, sc *Scenario) *Violation {
+	if len(sc.Types) < 1 || len(sc.Values) < 1 {
+		return nil
+	}
+	p := sc.Types[0]
+	enc := primEncode(p, sc.Values[0])
+	bb := bytes.NewBuffer(append(make([]byte, 0, len(enc)+64), enc...))
+	var src io.Reader = bb
+	for i := 0; i < sc.Cut && i < 2; i++ {
+		src = &io.LimitedReader{R: src, N: int64(len(enc)) + 8}
+	}
+	var got val.Value
+	var rerr error
+	cr := safeCall(1<<22, 1<<22, func() {
+		er := iohelp.NewErrorReader(src)
+		got = readStream(er, p)
+		rerr = er.Err
+		bb.Reset()
+		for i := 0; i < len(enc)+32; i++ {
+			bb.WriteByte(0xA5)
+		}
+	})
+	if cr.Panicked {
+		return &Violation{Class: "panic", Signature: "panic|source-reuse|" + p, Detail: cr.PanicText()}
+	}
+	if rerr != nil {
+		return mismatch("spurious-error|source-reuse|"+p, rerr.Error(), nil)
+	}
+	if d := primDiff(p, sc.Values[0], got); d != "" {
+		return &Violation{Class: "stale", Signature: "stale|source-reuse|" + p,
+			Detail: "a value read from a bytes.Buffer changed when the buffer was reset and refilled afterwards: " + clipStr(d, 200), Facts: map[string]string{"prim": p}}
+	}
+	return nil
+}
+
 // drawFixed is a fixed value of a primitive (for preludes, no randomness).
 func drawFixed(p string) val.Value {
 	switch p {
@@ -730,6 +781,9 @@ func execPrims(n *Node, sc *Scenario) *Violation {
 	}
 	if sc.Extra["probe"] == "overlap" {
 		return execPrimOverlap(n, sc)
+	}
+	if sc.Extra["probe"] == "sourcereuse" {
+		return execPrimSourceReuse(n, sc)
 	}
 	if sc.Extra["probe"] == "hostileprefix" {
 		full := primEncode("string", sc.Values[0])
